@@ -12,6 +12,8 @@ PDataReader::poll_read):
       A-ASSOCIATE PDU are not lost), client and server, sync and async.
 The parser itself (read_pdu never reads past what is available; incomplete -> None) is C25's pdu-budget.
 """
+import re
+
 from . import facts, hirq as H, common as C
 from .acc import place_text
 
@@ -143,6 +145,34 @@ def run(chk, tier):
         for h in cands:
             args = [H.show(a, 4) for c, y in H.calls(h["body"]) if c and c.endswith("read_pdu_from_wire") for a in H.call_args(y)]
             chk.expect(any("self.read_buffer" in a for a in args), "wire-loop", f"{ty}::{fn}", "(f)receive-uses-carried-buffer", "&mut self.read_buffer", args, loc=C.fn_loc(h))
+    # every `receive` (sync / async, requestor / acceptor) hands on exactly what the wire reader returned: one call, no loop that could
+    # drop or re-order PDUs; and nothing but the wire readers consumes the carried buffer (no clear / advance / truncate elsewhere)
+    from . import forward
+    n_rx = 0
+    for h in d["hir"]:
+        if not re.search(r"(client::(Async)?ClientAssociation|server::(Async)?ServerAssociation)<.*> as dicom_ul::association::private::(Sync|Async)AssociationSealed<.*>>::receive$", h["path"]):
+            continue
+        n_rx += 1
+        c = forward.core_call(h["body"])
+        loops = [x for x in H.walk(h["body"]) if H.kind(x) == "loop" and "desugar:Await" not in H.mac(x)]
+        wire = [c_ for c_, _ in H.calls(h["body"]) if c_ and re.search(r"read_pdu_from_wire(_async)?$", c_)]
+        if c is None and "Async" in h["path"]:
+            # `async fn`: the body is the future's closure; the single awaited expression is the call
+            c = next((x for c_, x in H.calls(h["body"]) if c_ and re.search(r"association::timeout$|read_pdu_from_wire_async$", c_)), None)
+        conds = [x for x in H.walk(h["body"]) if H.kind(x) == "if" or (H.kind(x) == "match" and len(x) > 5 and x[5] == "Normal")]
+        ok = c is not None and len(wire) == 1 and not loops and not conds
+        chk.expect(ok, "wire-loop", h["path"].split(" as ")[0].lstrip("<").split("::")[-1].split("<")[0] + "::receive", "(g)receive-is-the-wire-read", "a single call of read_pdu_from_wire(_async), no loop",
+                   {"call": (H.callee(c) or "?").split("::")[-1] if c is not None else None, "loops": len(loops)}, loc=C.fn_loc(h))
+    chk.floor("wire-loop", "receive implementations", n_rx, 4)
+    MUT = {"clear", "truncate", "advance", "split_to", "split_off", "split", "drain", "resize", "set_len", "unsplit", "reserve", "extend_from_slice", "put", "put_slice"}
+    touch = []
+    for h in d["hir"]:
+        if not re.match(r"<?dicom_ul::association::(client|server)::", h["path"]):
+            continue
+        for x in H.walk(h["body"]):
+            if H.kind(x) == "mcall" and x[3] in MUT - {"reserve"} and H.show(x[4], 4).endswith("self.read_buffer"):
+                touch.append(f"{h['path'].split('::')[-1]}: self.read_buffer.{x[3]}() line {x[1]}")
+    chk.expect(not touch, "wire-loop", "associations", "(h)only-the-wire-readers-consume-the-carried-buffer", "no clear / advance / truncate / split of self.read_buffer in client.rs / server.rs", touch)
     # the parser under the loops: a partial PDU must come back as "incomplete", never as a panic or a misread —
     # every cursor read needs a dominating availability proof (same GUARD as C25's pdu-budget)
     from . import budget
